@@ -493,6 +493,26 @@ fn main() {
         t
     });
 
+    // S4b: structured operands (word limits, word-crossing products, digit patterns at every length, carry
+    // chains, all-ones words) as numerators and as divisors
+    let st = structured_ints(tier.pick(60, 200), tier.pick(24, 60), run.seed());
+    run.bound("S4b_structured_integers", st.len());
+    run.par("S4b structured operands", st.len(), |i| {
+        let mut t = Tally::default();
+        let x = &st[i];
+        let two64 = BigInt::from(1) << 64usize;
+        let others: Vec<BigInt> = vec![BigInt::from(1), BigInt::from(-1), BigInt::from(2), BigInt::from(3), BigInt::from(7), BigInt::from(16), BigInt::from(125), BigInt::from(999_983), &two64 - 1, &two64 + 1, pow10(19), x + 1, x.clone()];
+        for y in others.iter() {
+            for (sa, sb) in [(0i128, 0i128), (5, 0), (0, 5), (-3, 2)] {
+                t.states += 2;
+                t.nontrivial += 8;
+                check_dec(&run, &Dec { n: x.clone(), s: sa }, &Dec { n: y.clone(), s: sb }, &forms, &mut t);
+                check_dec(&run, &Dec { n: y.clone(), s: sa }, &Dec { n: -x.clone(), s: sb }, &forms, &mut t);
+            }
+        }
+        t
+    });
+
     // S5: primitive forms (value oracle and zero divisors of every overload)
     let mut tys: Vec<&str> = INT_TYPES.to_vec();
     tys.extend(["f32", "f64"]);
